@@ -1,3 +1,4 @@
 import TinyFlux.Audit.Tool
 import TinyFlux.Props.C07
+import TinyFlux.Props.C07State
 #audit TinyFlux.Props.C07
